@@ -110,8 +110,12 @@ inductive Faithful (ext : Ext) : DataType → SVal → LVal → Prop
   | widen (b : Nat) : Faithful ext .float64 (.f32 b) (.float (Float.convert Float.f32 Float.f64 b))
   | codec {dt k s r w} (hk : kindOf dt = some k) (hp : parseTemporal ext k s = some r) (hr : r = .ok w) :
       Faithful ext dt (.str s) (.int w)
-  | text {dt x s} (hd : dt = .utf8 ∨ dt = .largeUtf8 ∨ dt = .utf8View ∨ ∃ kt vt, dt = .dictionary kt vt)
+  | text {dt x s} (hd : dt = .utf8 ∨ dt = .largeUtf8 ∨ dt = .utf8View)
       (hs : scalarToString ext x = some s) : Faithful ext dt x (.str (strBytes s))
+  /-- a dictionary column: the string form of the scalar, at the VALUE type of the dictionary (the string itself for
+  the string types, the parsed value for `Dictionary(_, Date32)` … — `Spec.interpDictStr`) -/
+  | dict {kt vt x s lv} (hs : scalarToString ext x = some s) (hv : interpDictStr ext vt s = .ok lv) :
+      Faithful ext (.dictionary kt vt) x lv
   | bytes {dt} (b : Bytes) (hd : dt = .binary ∨ dt = .largeBinary ∨ dt = .binaryView ∨ dt = .fixedSizeBinary b.length) :
       Faithful ext dt (.bytes b) (.bin b)
   | unit (n : String) : Faithful ext .null (.unitStruct n) .null
@@ -166,7 +170,7 @@ theorem interpScalar_faithful (ext : Ext) (dt : DataType) (x : SVal) (lv : LVal)
       · cases h
     case dictionary kt vt =>
       split at h
-      · cases h; exact .text (Or.inr (Or.inr (Or.inr ⟨kt, vt, rfl⟩))) (by assumption)
+      · exact .dict (by assumption) h
       · cases h
     case binary | largeBinary | binaryView =>
       split at h
